@@ -161,7 +161,7 @@ def run_tlc(module, cfg, workdir, workers=8, timeout=1200, simulate=None, seed=N
 
 # --------------------------------------------------------------------------- replay
 
-def _run_replay_chunk(cases, workdir, name, env, timeout_ms, binary="replay"):
+def _run_replay_chunk(cases, workdir, name, env, timeout_ms, binary="replay", restarts_max=200):
     """Run one chunk of cases in subprocesses, restarting after a crash/hang.
     Returns verdict dicts (crash/hang become failing verdicts)."""
     cpath = os.path.join(workdir, f"{name}.cases.ndjson")
@@ -183,10 +183,13 @@ def _run_replay_chunk(cases, workdir, name, env, timeout_ms, binary="replay"):
         rc = p.returncode
         started = None
         done = False
-        with open(opath) as f:
+        last_done = None     # (index, id) of the last case that got its verdict in this process
+        with open(opath, "rb") as f:
             f.seek(before)
-            for line in f:
-                line = line.strip()
+            for raw in f:
+                # (an observation of storage that was corrupted may not be valid UTF-8: it must become a
+                # mismatching observation, not a tool error)
+                line = raw.decode("utf-8", errors="replace").strip()
                 if not line:
                     continue
                 try:
@@ -202,6 +205,7 @@ def _run_replay_chunk(cases, workdir, name, env, timeout_ms, binary="replay"):
                 elif "id" in o:
                     verdicts[o["id"]] = o
                     if started and started["start"] == o["id"]:
+                        last_done = (started["n"], o["id"])
                         started = None
         if done and rc == 0:
             break
@@ -209,6 +213,23 @@ def _run_replay_chunk(cases, workdir, name, env, timeout_ms, binary="replay"):
         if started is None:
             if rc == 2:
                 raise ToolError(f"replayer rejected its input ({cpath})")
+            if last_done is not None:
+                # the process died between two cases, after at least one verdict: what runs there is the
+                # teardown of the previous case (engine drop, threads it left behind).  That is behaviour
+                # of the code under test: the previous case fails with it.
+                n, cid = last_done
+                v = verdicts[cid]
+                kind = "hang" if rc == 97 else f"crash(rc={rc})"
+                if v.get("pass"):
+                    v["pass"] = False
+                    v["why"] = f"process {kind} after the case (engine teardown)"
+                else:
+                    v["why"] = v.get("why", "") + f" [then process {kind} after the case]"
+                skip = n + 1
+                restarts += 1
+                if restarts > restarts_max:
+                    raise ToolError("too many replayer restarts")
+                continue
             raise ToolError(f"replayer died (rc={rc}) outside any case ({cpath})")
         n = started["n"]
         cid = started["start"]
@@ -218,7 +239,7 @@ def _run_replay_chunk(cases, workdir, name, env, timeout_ms, binary="replay"):
                          "got": [{"class": kind, "emit": [], "val": None, "msg": None}]}
         skip = n + 1
         restarts += 1
-        if restarts > 200:
+        if restarts > restarts_max:
             raise ToolError("too many replayer restarts")
     return [verdicts.get(c["id"]) or {"id": c["id"], "tag": c.get("tag", ""), "pass": False,
                                       "why": "no verdict", "step": 0, "got": []}
